@@ -518,8 +518,11 @@ def _tempfile(ctx):
     rep.analysed('fileutils.write_to_tempfile')
     content = T('sym', 'content')
     WRITE_FAILS = T('sym', 'write_fails')
-    for with_path in (False, True):
-        path = T('sym', 'dir') if with_path else K(None)
+    for with_path in (False, True, ''):
+        # '' is tempfile's spelling of "the current directory": nothing to
+        # create (os.makedirs('') fails)
+        path = T('sym', 'dir') if with_path else K(None if with_path is False
+                                                   else '')
 
         def hook(interp, name, fv, args, kwargs):
             if name == 'os.write':
@@ -569,8 +572,9 @@ def _tempfile(ctx):
                 else None
 
         outcomes, _i = extract(world, thunk, setup=setup)
-        key = 'write_to_tempfile[path %s]' % ('given' if with_path
-                                              else 'None')
+        key = 'write_to_tempfile[path %s]' % (
+            'given' if with_path else 'None' if with_path is False
+            else "''")
         notes = inexact_notes(outcomes, allow=('symbolic iteration bounded',))
         if notes:
             rep.undecided('R20.4', key, 'inexact: %s' % notes)
